@@ -254,7 +254,8 @@ def _gen_case(rng, tier, index):
     cfg.records = rng.random() < 0.25
     cfg.unions = rng.random() < 0.2
     cfg.regular = regime == "mixed"
-    cfg.dtypes = NUMERIC
+    cfg.dtypes = NUMERIC if not cfg.unions else ["int32", "int64", "float64"]    # (no unsigned wrap-around of
+    # differently promoted union arms: which width a merged union result has is not this property's business)
     cfg.extremes = False
     for _ in range(30):
         T = gen.gen_type(rng, cfg)
@@ -271,7 +272,9 @@ def _gen_case(rng, tier, index):
     menu = ["same", "same", "cut", "cut", "scalar", "broken"] if regime == "var" else ["same", "same", "scalar", "size1"]
     for _ in range(nargs - 1):
         how = rng.choice(menu)
-        dtype = rng.choice(NUMERIC)
+        if how == "scalar" and any(a["k"] == "s" for a in args):
+            how = "same"       # (several Python scalars in one expression are combined by Python before any broadcasting)
+        dtype = rng.choice(NUMERIC if not cfg.unions else ["int32", "int64", "float64"])
         if how == "scalar":
             args.append({"k": "s", "v": rng.choice([0, 1, 2, 3, 0.5, -1.5, True]), "how": how})
             continue
@@ -330,6 +333,8 @@ def gen_regular_case(rng, tier):
     args = [make(shape, "base")]
     for _ in range(nargs - 1):
         how = rng.choice(["same", "size1", "lower-rank", "scalar", "broken"])
+        if how == "scalar" and any(a["k"] == "s" for a in args):
+            how = "same"
         if how == "scalar":
             args.append({"k": "s", "v": rng.choice([0, 1, 2, 3, 0.5, -1.5, True]), "how": how})
             continue
